@@ -545,7 +545,7 @@ impl World {
                             (Some(_), None) => { self.violate("C18", "ack-timeout-before-written", format!("tag {} timed out although its packet was not completely written on this connection", tag)); }
                             (Some(t), Some((c, at))) => {
                                 if c != ci { self.violate("C18", "ack-timeout-before-written", format!("tag {}", tag)); }
-                                else if now < at + t { self.violate("C18", "ack-timeout-early", format!("tag {} written at {} ms, timeout {} ms, failed at {} ms", tag, at, t, now)); }
+                                else if now < at.saturating_add(t) { self.violate("C18", "ack-timeout-early", format!("tag {} written at {} ms, timeout {} ms, failed at {} ms", tag, at, t, now)); }
                             }
                         }
                         if during != "service" { self.violate("C18", format!("ack-timeout-outside-service {}", during), format!("tag {}", tag)); }
